@@ -199,8 +199,9 @@ def run_tlc(module, cfg, workers=4, timeout=900, env=None, xss="1g", xmx="6g", e
     e.pop("JAVA_TOOL_OPTIONS", None)
     if env:
         e.update({k: str(v) for k, v in env.items()})
-    cmd = ["timeout", str(timeout), "java", f"-Xss{xss}", f"-Xmx{xmx}", "-XX:+UseParallelGC", "-cp", TLA_CP,
-           "tlc2.TLC", "-workers", str(workers), "-metadir", str(meta), "-config", str(cfg)] + list(extra) + \
+    cmd = ["timeout", str(timeout), "java", f"-Xss{xss}", f"-Xmx{xmx}", "-XX:+UseParallelGC",
+           f"-XX:ParallelGCThreads={max(1, min(4, int(workers)))}", "-cp", TLA_CP,
+           "tlc2.TLC", "-noGenerateSpecTE", "-workers", str(workers), "-metadir", str(meta), "-config", str(cfg)] + list(extra) + \
           [str(module) if str(module).endswith(".tla") else str(SPEC / f"{module}.tla")]
     t0 = time.time()
     r = subprocess.run(cmd, capture_output=True, text=True, env=e, cwd=str(cwd or SPEC))
@@ -388,7 +389,7 @@ class Check:
         if merged["drift"]:
             self.notes.append(f"{len(merged['drift'])} model-drift notes (implementation-level model stale; not a violation)")
         for v in merged["viol"]:
-            if relevant is not None and v.get("prop") not in relevant:
+            if relevant is not None and not (set(str(v.get("prop", "")).split(",")) & set(relevant)):
                 continue
             self.report(v)
 
